@@ -35,7 +35,9 @@ Record case := mkCase {
   c_add_cmt_meta : bool;               (* existing columns, their order and dtypes kept; new column last, typed compartment *)
   c_add_admid : res (list row);
   c_add_admid_meta : bool;
-  c_obs_keep : list (Z * Z)            (* get_observations(keep_index=True): label, DV *)
+  c_obs_keep : list (Z * Z);           (* get_observations(keep_index=True): label, DV *)
+  c_expand_noflag : res (list row);    (* expand_additional_doses(model) with the default flag=False *)
+  c_expand_noflag_cols : bool          (* its columns: the input's without ADDL / II (all of them when nothing is expanded) *)
 }.
 
 Fixpoint list_eqb {A : Type} (eqb : A -> A -> bool) (a b : list A) : bool :=
@@ -106,7 +108,8 @@ Definition corr (c : case) : list nat :=
   tag (res_eqb (list_eqb Z.eqb) (doseid_impl d) (match c_doseid c with Ok l => Ok (map snd l) | Err e => Err e end)
        && match c_doseid c with Ok l => list_eqb Z.eqb (map fst l) (map r_lab (ds_rows d)) | Err _ => true end) 3 ++
   tag (res_eqb (list_eqb rb_eqb) (expand_impl d) (c_expand c)
-       && match c_expand c with Ok _ => Bool.eqb (expand_id_is_int d) (c_expand_idint c) | Err _ => true end) 4 ++
+       && match c_expand c with Ok _ => Bool.eqb (expand_id_is_int d) (c_expand_idint c) | Err _ => true end
+       && res_eqb (list_eqb row_eqb) (expand_noflag_impl d) (c_expand_noflag c)) 4 ++
   tag (res_eqb (list_eqb rz_eqb) (tad_impl d) (c_tad c)
        && match c_tad c with Ok _ => Bool.eqb (expand_id_is_int d) (c_tad_idint c) | Err _ => true end) 5 ++
   tag (series_eqb (obs_impl d) (c_obs c) && res_eqb series_eqb (doses_impl d) (c_doses c)
@@ -203,6 +206,17 @@ Definition oracle (c : case) : list nat :=
    | Err _ => tag (match c_admid c with Err _ => true | Ok _ => false end) 33
    end) ++
   tag (list_eqb zz_eqb (c_obs_keep c) (obs_keep_walk s rows)) 37 ++
+  (* the default expand_additional_doses: the implied doses without the ADDL / II columns; total amount *)
+  match c_expand_noflag c with
+  | Ok l =>
+      tag (c_expand_noflag_cols c
+           && (if expansion_applies d && g_addl_nonneg rows
+               then multiset_eqb row_eqb (map unlab l)
+                                 (map (fun p : row * bool => unlab (drop_addl_ii (fst p))) (flat_map implied rows))
+                    && (zsum (map r_amt l) =? zsum (map (fun r => (r_addl r + 1) * r_amt r) rows))
+               else expansion_applies d || list_eqb row_eqb l rows)) 38
+  | Err _ => [38%nat]
+  end ++
   tag (list_eqb Z.eqb (c_ids c) (ids_walk d) && (c_nind c =? Z.of_nat (length (ids_walk d)))) 34 ++
   (if Nat.eqb (c_ncov c) 0 then [] else tag (res_eqb (list_eqb zl_eqb) (c_covbase c) (Ok (covbase_walk d))) 35).
 
